@@ -461,6 +461,10 @@ func (abvt *accountBlockTransactionVerifier) descendantBlocks() error {
 		}).all(); err != nil {
 			return DescendantVerifyError(err)
 		}
+		// the hash of the parent covers the hash fields of its descendants, not their contents
+		if dBlock.ComputeHash() != dBlock.Hash {
+			return DescendantVerifyError(ErrABHashInvalid)
+		}
 	}
 	return nil
 }
